@@ -70,8 +70,11 @@ type Summary struct {
 
 // Interp is the interpreter for one program.
 type Interp struct {
-	P     *load.Program
-	Hooks Hooks
+	intCells map[string]types.Type   // integer locals held in memory (object id -> type)
+	tables   map[*ssa.Global][]int64 // package-level constant integer tables (read-only arrays)
+	noTable  map[*ssa.Global]bool
+	P        *load.Program
+	Hooks    Hooks
 	// Axioms give bounds for parameter-rooted symbols of API roots (documented input domains) and
 	// type-level field invariants that are justified by separate obligations.
 	SymLo map[string]int64
@@ -612,6 +615,9 @@ func (st *State) load(a addr) Val {
 	}
 	if v, ok := st.mem[key]; ok {
 		return st.coerce(v, a.t, key)
+	}
+	if v, ok := st.tableElem(a); ok {
+		return v
 	}
 	if strings.HasPrefix(a.obj.ID, "@") && a.path == "" && ssau.IsErrorType(a.t) {
 		// package-level error variables are sentinels: created once by errors.New and never reassigned
